@@ -246,8 +246,13 @@ int main(int argc, char** argv) {
     volatile size_t* done = (volatile size_t*)mmap(nullptr, sizeof(size_t), PROT_READ | PROT_WRITE, MAP_SHARED | MAP_ANONYMOUS, -1, 0);
     *done = 0;
     char errname[64]; snprintf(errname, sizeof errname, "/tmp/C14_err_%d.txt", (int)getpid());
+    int traps = 0; const int MAX_TRAPS = 40;
     while (*done < cases.size()) {
         fflush(stdout);
+        if (traps >= MAX_TRAPS) {        // systemic defect: do not spend a process per remaining case
+            for (size_t k = *done; k < cases.size(); k++) puts("CRASH(skipped): more than 40 cases of this file trapped, not run");
+            fflush(stdout); break;
+        }
         pid_t pid = fork();
         if (pid == 0) {
             if (!freopen(errname, "w", stderr)) _exit(3);
@@ -267,7 +272,7 @@ int main(int argc, char** argv) {
         if (msg.size() > 200) msg.resize(200);
         int code = WIFEXITED(status) ? WEXITSTATUS(status) : -(int)WTERMSIG(status);
         printf("CRASH(%d): %s\n", code, msg.c_str()); fflush(stdout);
-        *done = *done + 1;
+        *done = *done + 1; traps++;
     }
     unlink(errname);
     return 0;
